@@ -372,6 +372,13 @@ func Run(c *hx.Ctx) {
 		winEmit(c, "C09", c.Args[1], uint32(mc), uint32(mr), ops, obs, w)
 		return
 	}
+	if len(c.Args) == 5 && c.Args[0] == "dw" {
+		mc, _ := strconv.Atoi(c.Args[2])
+		mr, _ := strconv.Atoi(c.Args[3])
+		ops, obs, w := dwRunOps(c, c.Args[1], uint32(mc), uint32(mr), dwScripted(strings.Split(c.Args[4], ",")))
+		dwEmit(c, "C09", c.Args[1], uint32(mc), uint32(mr), ops, obs, w)
+		return
+	}
 	if len(c.Args) == 4 {
 		mc, _ := strconv.Atoi(c.Args[1])
 		mr, _ := strconv.Atoi(c.Args[2])
@@ -463,4 +470,6 @@ func Run(c *hx.Ctx) {
 		ops, obs, w := runOps(c, k, mc, mr, gen(c, rng, length))
 		emit(c, k, mc, mr, ops, obs, w)
 	}
+	// pool10: connection events inside the dial windows and the NewStream accounting window (dialwin.go)
+	RunDw(c, "C09", c.N(60, 900))
 }
